@@ -89,7 +89,7 @@ class DocGen:
         self.s_id = jg.cheap_call_id()
         self.s_flavour = st.sampled_from(flavours or (['valid'] * 6 + ['unknown-method', 'deviant', 'deviant', 'non-object']))
         self.s_nonobj = st.sampled_from(jg.SCALAR_POOL + [[], [1]])
-        self.s_name = st.sampled_from(self.names)
+        self.s_name = st.sampled_from(self.names + [n for n in self.names if n in ('ret', 'rpc_err', 'boom', 'echo')])
         self.s_miss = st.sampled_from(_near_misses(self.names))
         self.s_shape = st.sampled_from(['absent', 'list', 'list', 'dict', 'dict', 'dict', 'exact-list', 'exact-dict', 'exact-dict', 'bad'])
         self.s_badparams = st.sampled_from([None, 1, 'x', True, 1.5, ''])
